@@ -4,6 +4,8 @@ package main
 import (
 	"bytes"
 	"flag"
+	"runtime"
+	"runtime/pprof"
 	"fmt"
 	"os"
 	"time"
@@ -23,7 +25,20 @@ func main() {
 	out := flag.String("out", "", "result file")
 	replayDir := flag.String("replaydir", "/verif/replays", "where witnesses go")
 	replay := flag.String("replay", "", "replay file")
+	memprof := flag.String("memprofile", "", "write a heap profile here when done (debugging aid)")
+	maxCases := flag.Int("maxcases", 0, "debugging aid: stop after this many sequential cases")
 	flag.Parse()
+	seq.MaxCases = *maxCases
+	if *memprof != "" {
+		defer func() {
+			runtime.GC()
+			f, err := os.Create(*memprof)
+			if err == nil {
+				pprof.WriteHeapProfile(f)
+				f.Close()
+			}
+		}()
+	}
 
 	start := time.Now()
 	col := core.NewCollector(*prop, *tier, *variant, *seed, *shard)
